@@ -93,13 +93,15 @@ func c17Par(total int, f func(i int)) {
 }
 
 // ---- the sequence itself ----
-func c17DeBruijn(v *verifRun, n int) {
+// c17DeBruijn checks one order and returns the result of the call (ok = the
+// function returned).
+func c17DeBruijn(v *verifRun, n int) (s string, ok bool) {
 	v.Case("order "+strconv.Itoa(n), true)
 	in := "NucleobaseDeBruijnSequence(" + strconv.Itoa(n) + ")"
-	var s string
 	if !v.Guard("panic", in, func() { s = NucleobaseDeBruijnSequence(n) }) {
-		return
+		return "", false
 	}
+	ok = true
 	want := c17Pow4(n) + n - 1
 	if len(s) != want {
 		v.Fail("wrong-length", in, "length "+strconv.Itoa(len(s))+", want 4^n+n-1 = "+strconv.Itoa(want))
@@ -136,6 +138,58 @@ func c17DeBruijn(v *verifRun, n int) {
 			return
 		}
 	}
+	return
+}
+
+// c17InterleavedOrders: max-2, 1, max-1, 2, max, 3 and then the orders in
+// between alternately from the top and from the bottom (9,1,10,2,11,3,8,4,7,5,6
+// for max = 11).
+func c17InterleavedOrders(max int) []int {
+	if max < 6 {
+		var out []int
+		for lo, hi := 1, max; lo <= hi; lo, hi = lo+1, hi-1 {
+			out = append(out, hi)
+			if lo < hi {
+				out = append(out, lo)
+			}
+		}
+		return out
+	}
+	out := []int{max - 2, 1, max - 1, 2, max, 3}
+	for lo, hi := 4, max-3; lo <= hi; lo, hi = lo+1, hi-1 {
+		out = append(out, hi)
+		if lo < hi {
+			out = append(out, lo)
+		}
+	}
+	return out
+}
+
+// c17FirstDiff describes where two strings differ.
+func c17FirstDiff(a, b string) string {
+	i := 0
+	for i < len(a) && i < len(b) && a[i] == b[i] {
+		i++
+	}
+	return "lengths " + strconv.Itoa(len(a)) + " and " + strconv.Itoa(len(b)) + ", first difference at letter " + strconv.Itoa(i)
+}
+
+// c17Again calls the function once more for order n, after the calls named in
+// history, and demands the byte-identical result.
+func c17Again(v *verifRun, n int, first map[int]string, pass, history string) {
+	want, ok := first[n]
+	if !ok {
+		return // the first call did not return; reported there
+	}
+	v.Case("order "+strconv.Itoa(n)+", called again ("+pass+")", true)
+	in := "NucleobaseDeBruijnSequence(" + strconv.Itoa(n) + ") called again after the orders " + history
+	var s string
+	if !v.Guard("panic", in, func() { s = NucleobaseDeBruijnSequence(n) }) {
+		return
+	}
+	if s != want {
+		v.Fail("result-depends-on-call-history", in, "differs from the result of the first call for this order: "+c17FirstDiff(s, want))
+	}
 }
 
 // ---- barcodes ----
@@ -165,6 +219,7 @@ type c17Case struct {
 	length, order int
 	bans          []string
 	filters       []int // indices into c17Filters
+	keep          bool  // keep the barcodes for the second-call comparison
 }
 
 func (c c17Case) String() string {
@@ -184,6 +239,8 @@ type c17Out struct {
 	fails             []c17Fail
 	barcodes          int
 	nontrivialBanFree bool
+	panicked          bool
+	kept              []string // the barcodes, for cases with keep
 }
 
 // reference data per order: the generated sequence and the position of every n-letter word in it
@@ -232,14 +289,12 @@ const (
 	c17Panic
 )
 
-func c17Eval(c c17Case) (out c17Out) {
-	ref := c17GetRef(c.order)
+// c17Call calls the barcode function of the case under recover.
+func c17Call(c c17Case) (barcodes []string, panicked string) {
 	fs := make([]func(string) bool, len(c.filters))
 	for i, k := range c.filters {
 		fs[i] = c17Filters[k].f
 	}
-	var barcodes []string
-	panicked := ""
 	func() {
 		defer func() {
 			if r := recover(); r != nil {
@@ -257,11 +312,21 @@ func c17Eval(c c17Case) (out c17Out) {
 			barcodes = CreateBarcodesWithBannedSequences(c.length, c.order, append([]string(nil), c.bans...), fs)
 		}
 	}()
+	return
+}
+
+func c17Eval(c c17Case) (out c17Out) {
+	ref := c17GetRef(c.order)
+	barcodes, panicked := c17Call(c)
 	if panicked != "" {
 		out.fails = append(out.fails, c17Fail{c17Panic, "panic", panicked})
+		out.panicked = true
 		return
 	}
 	out.barcodes = len(barcodes)
+	if c.keep {
+		out.kept = barcodes
+	}
 	n := c.order
 	// substrings of exactly the requested length
 	for i, b := range barcodes {
@@ -334,7 +399,15 @@ filters:
 	return
 }
 
-type c17Runs struct{ v [4]*verifRun }
+type c17Kept struct {
+	c        c17Case
+	barcodes []string
+}
+
+type c17Runs struct {
+	v    [4]*verifRun
+	kept []c17Kept // first results of the cases marked keep
+}
 
 // run evaluates the cases in parallel and reports in case order, so that the
 // first witnesses of a class are the earliest (smallest) cases.
@@ -351,6 +424,9 @@ func (r *c17Runs) run(cases []c17Case) {
 		}
 		if len(c.filters) > 0 {
 			r.v[c17FilterOK].Case(key, o.barcodes > 0)
+		}
+		if c.keep && !o.panicked {
+			r.kept = append(r.kept, c17Kept{c, o.kept})
 		}
 		for _, f := range o.fails {
 			if f.clause == c17Panic {
@@ -380,9 +456,17 @@ func c17Words(alpha string, lo, hi int) []string {
 	return out
 }
 
+func c17OrdersText(orders []int) string {
+	var out []string
+	for _, n := range orders {
+		out = append(out, strconv.Itoa(n))
+	}
+	return strings.Join(out, ",")
+}
+
 func TestVerifC17(t *testing.T) {
 	it := strconv.Itoa
-	maxOrderSeq, maxOrder := 8, 5
+	maxOrderSeq, maxOrder := 9, 5
 	nRandom, nTriples := 4000, 150000
 	if verifThorough() {
 		maxOrderSeq, maxOrder = 11, 8
@@ -391,9 +475,23 @@ func TestVerifC17(t *testing.T) {
 
 	// ---- the De Bruijn sequence ----
 	v := newVerifRun("C17", "primers.NucleobaseDeBruijnSequence/post/debruijn",
-		"exhaustive: orders 1.."+it(maxOrderSeq)+" (the property's quantifier is orders 1..11); length = 4^n+n-1, only the letters A, T, G, C, and a count of every one of the 4^n words over the whole sequence; non-trivial = every order")
+		"exhaustive: orders 1.."+it(maxOrderSeq)+" (the property's quantifier is orders 1..11); length = 4^n+n-1, only the letters A, T, G, C, and a count of every one of the 4^n words over the whole sequence; "+
+			"the function is a function of its argument: after the first pass (orders increasing) every order is called again in a descending pass ("+it(maxOrderSeq)+"..1) and in an interleaved pass ("+c17OrdersText(c17InterleavedOrders(maxOrderSeq))+"), and each result must be byte-identical to the first pass's result for that order; non-trivial = every order")
+	first := map[int]string{}
+	var history []string
 	for n := 1; n <= maxOrderSeq; n++ {
-		c17DeBruijn(v, n)
+		if s, ok := c17DeBruijn(v, n); ok {
+			first[n] = s
+		}
+		history = append(history, it(n))
+	}
+	for n := maxOrderSeq; n >= 1; n-- {
+		c17Again(v, n, first, "descending pass", strings.Join(history, ","))
+		history = append(history, it(n))
+	}
+	for _, n := range c17InterleavedOrders(maxOrderSeq) {
+		c17Again(v, n, first, "interleaved pass", strings.Join(history, ","))
+		history = append(history, it(n))
 	}
 	v.Done()
 
@@ -406,8 +504,9 @@ func TestVerifC17(t *testing.T) {
 		"(b) every order 2.." + it(maxOrder) + " with every length n..60, no ban and no filter (CreateBarcodes); " +
 		"(c) seeded random: " + it(nRandom) + " cases, order 2.." + it(maxOrder) + ", length n..60, 0..5 bans of length 2..8, 0..3 of 7 filters; half of the cases take their bans from neighbouring windows of the De Bruijn sequence or their reverse complements so that avoiding one ban moves the window onto another; " +
 		"the reverse complement of a ban is computed by the test; reference sequence = NucleobaseDeBruijnSequence(order) (checked by the debruijn clause)"
+	againText := "; the barcode functions are functions of their arguments: every case of (b) and every 10th case of (c) is called a second time after all the other cases (so after every other order was used), in reverse case order, and must return the identical list (class result-depends-on-call-history)"
 	r := &c17Runs{}
-	r.v[c17Substr] = newVerifRun("C17", "primers.CreateBarcodesWithBannedSequences/post/substrings", dom+"; non-trivial = at least one barcode returned; a panic of the function is reported here (class panic)")
+	r.v[c17Substr] = newVerifRun("C17", "primers.CreateBarcodesWithBannedSequences/post/substrings", dom+againText+"; non-trivial = at least one barcode returned; a panic of the function is reported here (class panic)")
 	r.v[c17Shared] = newVerifRun("C17", "primers.CreateBarcodesWithBannedSequences/post/no-shared-nmer", dom+"; non-trivial = at least two barcodes returned")
 	r.v[c17BanFree] = newVerifRun("C17", "primers.CreateBarcodesWithBannedSequences/post/ban-free", dom+"; cases with at least one ban; non-trivial = some ban or its reverse complement occurs in the De Bruijn sequence and at least one barcode is returned")
 	r.v[c17FilterOK] = newVerifRun("C17", "primers.CreateBarcodesWithBannedSequences/post/filters-accept", dom+"; cases with at least one filter; non-trivial = at least one barcode returned")
@@ -418,13 +517,13 @@ func TestVerifC17(t *testing.T) {
 	for order := 2; order <= 3; order++ {
 		for length := order; length <= 10; length++ {
 			var cases []c17Case
-			cases = append(cases, c17Case{length, order, nil, nil})
+			cases = append(cases, c17Case{length, order, nil, nil, false})
 			for _, a := range bans {
-				cases = append(cases, c17Case{length, order, []string{a}, nil})
+				cases = append(cases, c17Case{length, order, []string{a}, nil, false})
 			}
 			for _, a := range bans {
 				for _, b := range bans {
-					cases = append(cases, c17Case{length, order, []string{a, b}, nil})
+					cases = append(cases, c17Case{length, order, []string{a, b}, nil, false})
 				}
 			}
 			r.run(cases)
@@ -433,22 +532,22 @@ func TestVerifC17(t *testing.T) {
 				for _, a := range bans {
 					for _, b := range bans {
 						for _, c := range bans {
-							cases = append(cases, c17Case{length, order, []string{a, b, c}, nil})
+							cases = append(cases, c17Case{length, order, []string{a, b, c}, nil, false})
 						}
 					}
 				}
 			} else {
 				for i := 0; i < nTriples/17; i++ {
-					cases = append(cases, c17Case{length, order, []string{bans[rng.Intn(len(bans))], bans[rng.Intn(len(bans))], bans[rng.Intn(len(bans))]}, nil})
+					cases = append(cases, c17Case{length, order, []string{bans[rng.Intn(len(bans))], bans[rng.Intn(len(bans))], bans[rng.Intn(len(bans))]}, nil, false})
 				}
 			}
 			r.run(cases)
 			cases = cases[:0]
 			for f1 := range c17Filters {
 				for f2 := range c17Filters {
-					cases = append(cases, c17Case{length, order, nil, []int{f1, f2}})
+					cases = append(cases, c17Case{length, order, nil, []int{f1, f2}, false})
 					for _, a := range bans {
-						cases = append(cases, c17Case{length, order, []string{a}, []int{f1, f2}})
+						cases = append(cases, c17Case{length, order, []string{a}, []int{f1, f2}, false})
 					}
 				}
 			}
@@ -460,7 +559,7 @@ func TestVerifC17(t *testing.T) {
 		var cases []c17Case
 		for order := 2; order <= maxOrder; order++ {
 			for length := order; length <= 60; length++ {
-				cases = append(cases, c17Case{length, order, nil, nil})
+				cases = append(cases, c17Case{length, order, nil, nil, true})
 			}
 		}
 		r.run(cases)
@@ -473,7 +572,7 @@ func TestVerifC17(t *testing.T) {
 			length := order + rng.Intn(61-order)
 			nb := rng.Intn(6)
 			nf := rng.Intn(4)
-			c := c17Case{length: length, order: order}
+			c := c17Case{length: length, order: order, keep: i%10 == 0}
 			ref := c17GetRef(order)
 			anchor := rng.Intn(len(ref.seq))
 			for j := 0; j < nb; j++ {
@@ -512,6 +611,38 @@ func TestVerifC17(t *testing.T) {
 			return cases[i].length < cases[j].length
 		})
 		r.run(cases)
+	}
+	// second call of the kept cases, in reverse order, after everything else
+	{
+		again := make([][]string, len(r.kept))
+		panics := make([]string, len(r.kept))
+		c17Par(len(r.kept), func(i int) {
+			k := len(r.kept) - 1 - i
+			again[k], panics[k] = c17Call(r.kept[k].c)
+		})
+		for k := len(r.kept) - 1; k >= 0; k-- {
+			key := r.kept[k].c.String() + ", called a second time"
+			r.v[c17Substr].Case(key, len(r.kept[k].barcodes) > 0)
+			if panics[k] != "" {
+				r.v[c17Substr].Fail("panic", key, panics[k])
+				continue
+			}
+			a, b := again[k], r.kept[k].barcodes
+			same := len(a) == len(b)
+			for i := 0; same && i < len(a); i++ {
+				same = a[i] == b[i]
+			}
+			if !same {
+				d := it(len(a)) + " barcodes, " + it(len(b)) + " at the first call"
+				for i := 0; i < len(a) && i < len(b); i++ {
+					if a[i] != b[i] {
+						d += "; barcode " + it(i) + " is " + strconv.Quote(a[i]) + ", was " + strconv.Quote(b[i])
+						break
+					}
+				}
+				r.v[c17Substr].Fail("result-depends-on-call-history", key, d)
+			}
+		}
 	}
 	for _, v := range r.v {
 		v.Sampled()
